@@ -473,6 +473,21 @@ func run(t *testing.T, plan any, keep bool) *simcheck.Outcome {
 						delete(files, k)
 					}
 				}
+				if state == "crashed" {
+					// The process died inside Trim. If the record now names this very trim, the trim
+					// counts as completed - and then it must really have finished its scan: a record
+					// that claims completion while stale entries survive makes the next Trim skip them.
+					if got, ok := after["trim.txt"]; ok && got != before["trim.txt"] && got == strconv.FormatInt(now.Unix(), 10) {
+						dropLimit := now.Add(-5*24*time.Hour - time.Hour)
+						for _, k := range names {
+							fm := files[k]
+							if _, still := after[k]; still && fm != nil && fm.known && fm.lastUse.Before(dropLimit) {
+								out.Violate("trim-record", "%s: the trimming process stopped mid-way, yet trim.txt already records this trim (%s) while entry file %s, unused since %s, is still there: the next Trim within a day will skip it", where, got, k, fm.lastUse.UTC().Format(time.RFC3339))
+							}
+						}
+						modelRec, modelRecOK = got, true
+					}
+				}
 				switch state {
 				case "due":
 					modelRec, modelRecOK = strconv.FormatInt(now.Unix(), 10), true // this trim completed
